@@ -2,6 +2,7 @@ import CoapVerif.Lemmas.Block
 import CoapVerif.Lemmas.BlockRecv
 import CoapVerif.Lemmas.BlockCrcv
 import CoapVerif.Lemmas.BlockXmit
+import CoapVerif.Lemmas.BlockRtag
 /-
 C09 — block-wise transfer: the sender's body arrives intact, once, or the transfer fails explicitly.
 
@@ -393,6 +394,74 @@ example : [XlEvent.create 1, .create 2, .delete 1, .delete 1, .create 3, .sessio
     ([], [3, 2, 1]) := by decide
 example : adlRel 1152 4 2 11 none 0 5000 1 = (0, true) ∧ adlRel 1152 4 2 11 none 0 50 1 = (1, false) ∧
     adlRel 60 4 2 11 none 0 5000 1 = (1, false) := by decide
+
+
+/-! ## two concurrent Block1 transfers on one session, told apart by Request-Tag ("locate the lg_srcv")
+
+M = `srcvMultiStep` (Model/BlockRtag.lean), tied to the real coap_handle_request_put_block by the T2 op `srcv3`. -/
+
+/-- The key an lg_srcv is filed under is the Request-Tag's PRESENCE and VALUE (an EMPTY tag is a tag): for every list
+of lg_srcvs and every request, (1) the element the request is processed against is the first one filed under exactly
+the request's key; (2) if there is none, the element created carries exactly that key, so that the next block with the
+same Request-Tag (absent / EMPTY / any value) finds it; (3) elements filed under another key survive the step
+unchanged and nothing with another key is added — the blocks of one transfer never reach the other's lg_srcv. -/
+theorem request_tag_tells_transfers_apart (cap : Nat) (junk : UInt8) (maxBlk : Nat) (lgs : List LgSrcv)
+    (o : Option Bytes) (num m szx : Nat) (payload : Bytes) (size1 : Option Nat) :
+    (∀ i, srcvFind lgs o = some i → ∃ lg, lgs[i]? = some lg ∧ lg.key = o ∧
+      ∀ j lg', j < i → lgs[j]? = some lg' → lg'.key ≠ o) ∧
+    (srcvFind lgs o = none → (∀ lg, lg ∈ lgs → lg.key ≠ o) ∧
+      ∀ s' out, srcvStep cap junk maxBlk none num m szx payload size1 = (some s', out) →
+        ∃ new, (srcvMultiStep cap junk maxBlk lgs o num m szx payload size1).1 = new :: lgs ∧ new.key = o ∧
+          new.s = s' ∧ srcvFind (new :: lgs) o = some 0) ∧
+    (∀ lg, lg ∈ lgs → lg.key ≠ o → lg ∈ (srcvMultiStep cap junk maxBlk lgs o num m szx payload size1).1) ∧
+    (∀ lg, lg ∈ (srcvMultiStep cap junk maxBlk lgs o num m szx payload size1).1 → lg ∈ lgs ∨ lg.key = o) := by
+  refine ⟨fun i h => srcvFind_some lgs o i h, ?_, (srcvMultiStep_keys cap junk maxBlk lgs o num m szx payload size1).1,
+    (srcvMultiStep_keys cap junk maxBlk lgs o num m szx payload size1).2⟩
+  intro hnone
+  refine ⟨srcvFind_none lgs o hnone, ?_⟩
+  intro s' out hs
+  cases o with
+  | none =>
+    refine ⟨⟨false, [], s'⟩, ?_, rfl, rfl, ?_⟩
+    · unfold srcvMultiStep
+      rw [hnone]
+      simp only
+      rw [hs]
+      rfl
+    · simp [srcvFind, rtagMatch]
+  | some t =>
+    refine ⟨⟨true, t, s'⟩, ?_, rfl, rfl, ?_⟩
+    · unfold srcvMultiStep
+      rw [hnone]
+      simp only
+      rw [hs]
+      rfl
+    · simp [srcvFind, rtagMatch]
+
+/-- an EMPTY Request-Tag is a key of its own: it matches neither an lg_srcv created without the option nor one with a
+non-empty tag, and it does match the one created with an empty tag (the defect seeded as "record the tag only if its
+length is non-zero" makes the last line false: every block then opens a new lg_srcv) -/
+example : rtagMatch (some []) { rtagSet := false, rtag := [], s := { recv := [], totalLen := 0, body := none, szx := 0 } } = false ∧
+    rtagMatch (some []) { rtagSet := true, rtag := [1], s := { recv := [], totalLen := 0, body := none, szx := 0 } } = false ∧
+    rtagMatch none { rtagSet := true, rtag := [], s := { recv := [], totalLen := 0, body := none, szx := 0 } } = false ∧
+    rtagMatch (some []) { rtagSet := true, rtag := [], s := { recv := [], totalLen := 0, body := none, szx := 0 } } = true := by
+  decide
+
+set_option maxRecDepth 100000 in
+/-- two interleaved 40-byte transfers to one resource, one with an EMPTY Request-Tag and one without the option: two
+lg_srcvs, each body delivered once -/
+example :
+    let b0 : Bytes := (List.range 40).map (fun i => UInt8.ofNat i)
+    let b1 : Bytes := (List.range 40).map (fun i => UInt8.ofNat (100 + i))
+    let st (lgs : List LgSrcv) (o : Option Bytes) (b : Bytes) (k m : Nat) :=
+      srcvMultiStep 4 0 0 lgs o k m 0 (slice b 0 k) none
+    let s1 := st [] (some []) b0 0 1
+    let s2 := st s1.1 none b1 0 1
+    let s3 := st s2.1 (some []) b0 1 1
+    let s4 := st s3.1 none b1 1 1
+    let s5 := st s4.1 (some []) b0 2 0
+    let s6 := st s5.1 none b1 2 0
+    s2.1.length = 2 ∧ s5.2 = SrcvOut.deliver b0 40 ∧ s6.2 = SrcvOut.deliver b1 40 ∧ s6.1 = [] := by decide
 
 /-! non-vacuity: concrete instances of the hypotheses -/
 example : setupBlockB 64 6 3 6 5000 = some { num := 96, m := 1, szx := 1, aszx := 1, chunk := 32 } := by decide
